@@ -92,6 +92,14 @@ class Facts:
             return STD_VARIANTS[base].get(dv)
         return None
 
+    def all_variants(self, adt):
+        if adt in self.adts:
+            return [v['name'] for v in self.adts[adt]['variants']]
+        base = adt.split('<')[0]
+        if base in STD_VARIANTS:
+            return list(STD_VARIANTS[base].values())
+        return []
+
     def callers(self):
         """node id -> list of (Body, CallSite) over instances (direct calls + fn values)."""
         if self._callers is None:
@@ -247,6 +255,18 @@ class Body:
 
     def local_ty(self, l):
         return strip_crate(self.locals[l]['ty'])
+
+    def generic_dup(self):
+        """True for a second instance of the same fn with an identical CFG shape (e.g. the copy of
+        append_records instantiated from append_record): rules evaluate the first one only."""
+        if self.poly:
+            return False
+        for o in self.facts.by_path.get(self.path, []):
+            if o is self:
+                return False
+            if len(o.blocks) == len(self.blocks):
+                return True
+        return False
 
     # ---------------------------------------------------------------------------------------
     def _build(self):
@@ -612,7 +632,7 @@ class Body:
             rv = data['rv']
             if rv['k'] == 'discr':
                 pl = rv['place']
-                return {'kind': 'discr', 'place': pl, 'adt': self.place_ty_hint(pl), 'point': p}
+                return {'kind': 'discr', 'place': pl, 'adt': strip_crate(rv.get('adt')), 'ty': strip_crate(rv.get('ty')), 'point': p}
             if rv['k'] == 'use':
                 ol = op_local(rv['op'])
                 if ol is not None:
@@ -684,13 +704,25 @@ class Body:
             c = self.switch_cond(bi)
             if c and c['kind'] == 'discr':
                 pl = c['place']
-                adt = self.place_adt(pl)
+                adt = c.get('adt') or self.place_adt(pl)
                 edges = {}
+                named = set()
                 for (v, e) in self.switch_edges(bi):
                     name = None
                     if v != 'otherwise' and adt:
                         name = self.facts.variant_by_discr(adt, v)
+                    if v == 'otherwise':
+                        tb = self.points[e[1]][0]
+                        if self.blocks[tb]['term']['k'] == 'unreachable' and not self.blocks[tb]['stmts']:
+                            continue
+                    if name is not None:
+                        named.add(name)
                     edges[name if name is not None else v] = e
+                if 'otherwise' in edges and adt:
+                    allv = self.facts.all_variants(adt)
+                    rest = [v for v in allv if v not in named]
+                    if len(rest) == 1:
+                        edges[rest[0]] = edges.pop('otherwise')
                 yield (bi, pl, adt, edges)
 
     def place_adt(self, pl):
@@ -894,3 +926,50 @@ def rvalue_places(rv):
     if rv['k'] in ('ref', 'rawptr', 'discr'):
         out.append(rv['place'])
     return out
+
+
+def norm_proj(proj):
+    out = []
+    for e in proj:
+        if e['k'] == 'downcast':
+            out.append(('v', e.get('variant')))
+        elif e['k'] == 'field':
+            out.append(('f', e['name'] if e.get('name') is not None else str(e['i'])))
+        elif e['k'] == 'deref':
+            out.append(('d',))
+        else:
+            out.append((e['k'],))
+    return tuple(out)
+
+
+def alias_paths(b, root):
+    """local -> set of projection paths (relative to local `root`) the local is a copy/move of."""
+    known = {root: {()}}
+    changed = True
+    while changed:
+        changed = False
+        for l, ds in b.defs.items():
+            for (p, kind, data) in ds:
+                if kind != 'assign' or data['place']['p']:
+                    continue
+                rv = data['rv']
+                if rv['k'] not in ('use', 'ref'):
+                    continue
+                pl = rv['op']['place'] if rv['k'] == 'use' and rv['op']['k'] in ('copy', 'move') else (rv['place'] if rv['k'] == 'ref' else None)
+                if pl is None or pl['l'] not in known:
+                    continue
+                suffix = tuple(x for x in norm_proj(pl['p']) if x != ('d',))
+                for base in list(known[pl['l']]):
+                    path = base + suffix
+                    if path not in known.setdefault(l, set()):
+                        known[l].add(path)
+                        changed = True
+    return known
+
+
+def place_path(known, pl):
+    """Paths (relative to the alias root) denoted by place pl, or []."""
+    if pl['l'] not in known:
+        return []
+    suffix = tuple(x for x in norm_proj(pl['p']) if x != ('d',))
+    return [base + suffix for base in known[pl['l']]]
